@@ -45,7 +45,7 @@ func layout(t core.Tier) (hist, ivs int) {
 	if t == core.Thorough {
 		return 4000, 2000
 	}
-	return 150, 200
+	return 120, 200
 }
 
 func init() {
@@ -75,7 +75,7 @@ func init() {
 			if t == core.Thorough {
 				return 3000
 			}
-			return 350
+			return 330
 		},
 		CaseTimeoutSec: 300,
 	})
